@@ -49,13 +49,14 @@ def bracket(rng, occ, virt):
     return sgn * (Add(*[_e(s) for s in v]) - Add(*[_e(s) for s in o]))
 
 
-def gen_term(rng, fock=False):
+def gen_term(rng, fock=False, spin=False):
     from adcgen.indices import Index, get_symbols
     names = ["V", "t1", "t2", "Y", "d0", "c"] + (["f"] if fock else [])
-    g = TermGen(rng, spaces="ov", n_tensors=(1, 3), max_contracted=4, max_target=3,
+    g = TermGen(rng, spaces="ov", spin=spin, n_tensors=(1, 3) if not spin else (1, 2),
+                max_contracted=4 if not spin else 3, max_target=3,
                 names=names, exclude=(), pool_size=5, exponents=0.25 if fock else 0.0)
     rem = g.term()
-    idx = sorted(rem.atoms(Index), key=lambda s: s.name)
+    idx = sorted(rem.atoms(Index), key=lambda s: (s.name, s.spin))
     occ = [s for s in idx if s.space == "occ"]
     virt = [s for s in idx if s.space == "virt"]
     return rem, occ, virt, idx
@@ -112,7 +113,8 @@ def run_case(item):
     from adcgen.reduce_expr import factor_eri_parts, factor_denom
     from adcgen.misc import Inputerror
     try:
-        rem, occ, virt, idx = gen_term(rng, fock=op in ("diag_fock", "block_diag_fock"))
+        spin = rng.random() < 0.2 and op not in ("factor_eri", "factor_denom")
+        rem, occ, virt, idx = gen_term(rng, fock=op in ("diag_fock", "block_diag_fock"), spin=spin)
     except RuntimeError:
         return {"status": "skipped", "item": item}
     if not consistent_bks(rem):
@@ -219,7 +221,8 @@ def run_case(item):
     A, B = e.sympy, out.sympy
     irs = [IR.expr_ir(A), IR.expr_ir(B)]
     Tset = {IR.idx_ir(s) for s in T}
-    model = pick_model(irs, Tset, MODELS, budget=120000)
+    model = pick_model(irs, Tset, MODELS if not spin else [Model(2, 2, spin=True), Model(1, 1, spin=True)],
+                       budget=120000)
     try:
         oc = compare(A, B, T, model, timeout_ms=TIMEOUT, seed=seed(), val_opts=val_opts)
     except Unsupported as exc:
